@@ -95,11 +95,9 @@ func (s *Schema) removed(d string) bool {
 
 // gone: removed with #removedType and not declared again
 func (s *Schema) gone(d string) bool { return s.removed(d) && !s.present(d) }
+// norm: the denoted type; a contract-qualified spelling (C.U) denotes the same type as the simple one (U)
 func norm(t string) string {
-	if t == "C.E" {
-		return "E"
-	}
-	return t
+	return strings.ReplaceAll(t, "C.", "")
 }
 func sameType(a, b string) bool { return norm(a) == norm(b) }
 
@@ -114,7 +112,25 @@ func typeExpr(t string) string {
 	case "{Int:Int}":
 		return "{Int: Int}"
 	}
+	if strings.HasPrefix(t, "{String:") {
+		return "{String: " + t[len("{String:"):]
+	}
 	return t
+}
+
+// nominalUV: for the types that hold the local struct U or V at some position: the struct and the position
+func nominalUV(t string) (name, pos string) {
+	switch n := norm(t); n {
+	case "U", "V":
+		return n, "direct"
+	case "U?", "V?":
+		return n[:1], "optional"
+	case "[U]", "[V]":
+		return n[1:2], "array"
+	case "{String:U}", "{String:V}":
+		return n[8:9], "dict"
+	}
+	return "", ""
 }
 
 // enumValIndex: which case the initializers use for fields of type E
@@ -126,6 +142,15 @@ func enumValIndex(d Decl) int {
 }
 
 func valExpr(t string, s *Schema) string {
+	if name, pos := nominalUV(t); name != "" {
+		switch pos {
+		case "array":
+			return "[" + name + "()]"
+		case "dict":
+			return "{\"k\": " + name + "()}"
+		}
+		return name + "()"
+	}
 	switch norm(t) {
 	case "Int", "Int8", "Integer", "AnyStruct":
 		return "7"
@@ -147,7 +172,7 @@ func valExpr(t string, s *Schema) string {
 			return "E." + e.Cases[enumValIndex(e)]
 		}
 		return "E()"
-	case "S", "{I}":
+	case "S", "{I}", "{I2}":
 		return "S()"
 	case "T":
 		return "T()"
@@ -183,7 +208,7 @@ func render(s *Schema) string {
 		}
 		sb.WriteString(" }\n")
 	}
-	for _, d := range []string{"E", "T", "S", "R"} {
+	for _, d := range []string{"E", "T", "U", "V", "S", "W", "R"} {
 		decl := s.Decls[d]
 		if decl.Kind != "struct" && decl.Kind != "resource" {
 			continue
@@ -220,6 +245,9 @@ func render(s *Schema) string {
 	case "struct":
 		sb.WriteString("  access(all) fun mkR(): R { return R() }\n")
 	}
+	if s.Decls["W"].Kind == "struct" {
+		sb.WriteString("  access(all) fun mkW(): W { return W() }\n")
+	}
 	if s.Decls["T"].Kind == "struct" {
 		sb.WriteString("  access(all) fun mkT(): T { return T() }\n")
 	}
@@ -228,7 +256,7 @@ func render(s *Schema) string {
 }
 
 // ---- what is stored under the old version
-type stored struct{ s, r, rStruct, es, ds, is, any, anyE, t bool }
+type stored struct{ s, r, rStruct, es, ds, is, any, anyE, t, w bool }
 
 func whatIsStored(old *Schema) stored {
 	var st stored
@@ -240,6 +268,7 @@ func whatIsStored(old *Schema) stored {
 	st.any = st.s
 	st.anyE = st.s && st.es
 	st.t = old.Decls["T"].Kind == "struct"
+	st.w = old.Decls["W"].Kind == "struct"
 	if st.s && old.Decls["I"].Kind == "sinterface" {
 		for _, c := range old.Decls["S"].Confs {
 			if c == "I" {
@@ -282,6 +311,9 @@ func storeTx(old *Schema, st stored) string {
 	if st.t {
 		sb.WriteString("    a.storage.save(C.mkT(), to: /storage/t)\n")
 	}
+	if st.w {
+		sb.WriteString("    a.storage.save(C.mkW(), to: /storage/w)\n")
+	}
 	sb.WriteString("  }\n}\n")
 	return sb.String()
 }
@@ -297,6 +329,19 @@ type reader struct {
 
 // showExpr: Cadence expression (of type String) describing expression x of declared type ty.
 func (r *reader) showExpr(x, ty string) string {
+	if name, pos := nominalUV(ty); name != "" && r.new.Decls[name].Kind == "struct" {
+		// read the nested struct's own field through the position: the stored value must have the declared type
+		switch pos {
+		case "direct":
+			return x + ".a.toString()"
+		case "optional":
+			return x + "!.a.toString()"
+		case "array":
+			return x + "[0].a.toString()"
+		case "dict":
+			return x + "[\"k\"]!.a.toString()"
+		}
+	}
 	switch norm(ty) {
 	case "Int", "Int8", "UInt8", "UInt16", "Integer":
 		return x + ".toString()"
@@ -369,6 +414,9 @@ func (r *reader) expectVal(newTy, oldTy string) string {
 	}
 	if !sameType(newTy, oldTy) {
 		return "?stored-type-" + oldTy + "-declared-" + newTy
+	}
+	if name, _ := nominalUV(newTy); name != "" && r.new.Decls[name].Kind == "struct" {
+		return "7"
 	}
 	switch norm(newTy) {
 	case "Int", "Int8", "Integer":
@@ -543,6 +591,12 @@ func (r *reader) build(st stored) (string, []string, []string) {
 			} else {
 				r.emit("AnyStruct-typed element E", "anys[1].getType().identifier", cPrefix+"E")
 			}
+		}
+	}
+	if st.w && r.usableType("W", "struct") {
+		r.sb.WriteString("  let w = a.storage.copy<C.W>(from: /storage/w)!\n")
+		for _, f := range r.readable("W") {
+			r.emit("stored W field "+f.N+" (declared "+f.Ty+")", r.showExpr("w."+f.N, f.Ty), r.expectVal(f.Ty, fieldType(r.old.Decls["W"].Fields, f.N)))
 		}
 	}
 	if st.t && !n.gone("T") {
